@@ -363,6 +363,9 @@ SMS = [
     {"issuer": "https://as.example"},            # nothing advertised: no restriction derived
     {"scopes_supported": [], "response_types_supported": ["token"], "grant_types_supported": ["implicit", "client_credentials"], "token_endpoint_auth_methods_supported": []},
 ]
+# a server without the authorization-code flow: the RFC 7591 defaults of omitted members (authorization_code / code / client_secret_basic) are not supported there
+SM_IMPLICIT = {"scopes_supported": ["a"], "response_types_supported": ["token"], "grant_types_supported": ["implicit"], "token_endpoint_auth_methods_supported": ["none"]}
+REG_IMPLICIT = {"redirect_uris": ["https://c.example/cb"], "scope": "a", "grant_types": ["implicit"], "response_types": ["token"], "token_endpoint_auth_method": "none"}
 REG_BASE = {"redirect_uris": ["https://c.example/cb"], "scope": "a", "grant_types": ["authorization_code"], "response_types": ["code"], "token_endpoint_auth_method": "none",
             "client_uri": "https://c.example/", "client_name": "C"}
 URI_POOL = ["https://c.example/x", "https://c.example/x#frag", "/relative", "c.example/x", "//c.example/x", "javascript:alert(1)", "ftp://files.example/x", "https:///nohost",
@@ -420,6 +423,10 @@ def registration_cases(rng, tier):
             k1, k2 = rng.sample(list(REG_POOL), 2)
             p = reg_mutate(reg_mutate(REG_BASE, k1, rng.choice([DROPK] + REG_POOL[k1])), k2, rng.choice([DROPK] + REG_POOL[k2]))
             case(sm, [reg(p)], "pair")
+    for drop in ([], ["grant_types"], ["response_types"], ["token_endpoint_auth_method"], ["grant_types", "response_types"]):
+        p = {k: v for k, v in REG_IMPLICIT.items() if k not in drop}
+        case(SM_IMPLICIT, [reg(p)], "defaults")
+        case(SM_IMPLICIT, [reg(dict(REG_IMPLICIT)), upd(dict(p, client_id="client1", client_secret="secret1"), "client1")], "defaults")
     # updates: two clients registered, then one update
     sm = SMS[0]
     two = [reg(dict(REG_BASE)), reg(dict(REG_BASE, client_uri="https://other.example/", scope="b"))]
@@ -555,6 +562,11 @@ def registration_oracle(c, out, bad):
                 return [e for e in x] if all(isinstance(e, str) for e in x) else None
             except TypeError:
                 return None
+        # members the client left out mean their RFC 7591 defaults
+        if sm.get("grant_types_supported") is not None and "grant_types" not in md and "authorization_code" not in sm["grant_types_supported"]:
+            bad(f"client stored without grant_types (default authorization_code) on a server that supports only {sm['grant_types_supported']}", kind="stored-unsupported", member="grant_types-default")
+        if sm.get("response_types_supported") is not None and "response_types" not in md and "code" not in sm["response_types_supported"]:
+            bad(f"client stored without response_types (default code) on a server that supports only {sm['response_types_supported']}", kind="stored-unsupported", member="response_types-default")
         if sm.get("grant_types_supported") is not None and md.get("grant_types"):
             g = strs(md["grant_types"])
             if g is None or not set(g) <= set(sm["grant_types_supported"]):
